@@ -1,4 +1,5 @@
 import TracklibVerif.Model.RasterSession
+import TracklibVerif.Model.RasterLayout
 import TracklibVerif.Drv.Util
 /-! Driver handler for C19. Scalars: mode `f` = IEEE bit patterns (model at `Float`), mode `q` = exact rationals
 (model at `Rat`). Commands:
@@ -18,8 +19,11 @@ import TracklibVerif.Drv.Util
         A:<aforder>:<tracks>                                     addCollectionToRaster; aforder = iteration order of the set of features
         C                                                        computeAggregates
         D:<value>                                                setNoDataValue (`None` allowed, as for <nodata> and the entries of a grid)
-      tracks = track|track…, track = uid@xs@ys@name=vals&name=vals (`_` for none); operators are the six co_* names or
-      a name starting with `undefined`
+      tracks = track|track…, track = uid@xs@ys@name=vals&name=vals (`_` for none), or uid@xs@ys@_@script for a track whose
+      analytical features are built by a script on the track's feature table (Model/RasterLayout.lean): steps separated by `&`,
+      `+name=vals` createAnalyticalFeature(name, vals), `-name` removeAnalyticalFeature(name), `~name=vals`
+      setObsAnalyticalFeature(name, k, vals[k]) for every k (a script that raises is refused); operators are the six co_*
+      names or a name starting with `undefined`
       a call other than N / S without a current raster is answered `noraster!none`
       reply: per call `outcome!xmin:xmax:ymin:ymax:ncol:nrow!nodata!bands!values!cells` (`outcome!none` without a current
       raster), outcome = ok | zero | the exception; bands = name=grid&… (grid `E` while every cell is an empty list);
@@ -68,8 +72,26 @@ def feat? (rd : String → Option α) (s : String) : Option (String × List (Opt
 
 def reservedFeat (n : String) : Bool := ["uid", "x", "y", "idx", "z", "t", "timestamp", ""].contains n
 
+def lstep? (rd : String → Option α) (n : Nat) (s : String) : Option (LStep α) :=
+  let named (body : String) (mk : String → List (Option α) → LStep α) : Option (LStep α) :=
+    match feat? rd body with
+    | some (nm, vs) => if vs.length != n || reservedFeat nm then none else some (mk nm vs)
+    | none => none
+  if s.startsWith "+" then named ((s.drop 1).toString) LStep.create
+  else if s.startsWith "~" then named ((s.drop 1).toString) LStep.write
+  else if s.startsWith "-" then (if reservedFeat ((s.drop 1).toString) then none else some (LStep.remove ((s.drop 1).toString)))
+  else none
+
 def trk? (rd : String → Option α) (s : String) : Option (Trk α) :=
   match s.splitOn "@" with
+  | [uid, xs, ys, "_", sc] => do
+    let u ← rd uid
+    let X ← (splitTok xs ',').mapM rd
+    let Y ← (splitTok ys ',').mapM rd
+    if X.length != Y.length then none
+    else
+      let steps ← (splitTok sc '&').mapM (lstep? rd X.length)
+      trkOfScript u (X.zip Y) steps
   | [uid, xs, ys, fs] => do
     let u ← rd uid
     let X ← (splitTok xs ',').mapM rd
